@@ -18,12 +18,12 @@ Src == <<"A","src">>
 MCOut == <<"A","out">>
 D7 == DirNode(755, 1)
 
-MCNameOrder == <<"", ".", "..", "..n", ".git", ".terraform", ".terraformignore", "A", "a", "ab", "b", "cw", "e", "ef", "ext", "ext2",
+MCNameOrder == <<"", ".", "..", "..n", ".git", ".terraform", ".terraformignore", "A", "a", "a+b", "aab", "ab", "b", "cw", "e", "ef", "ext", "ext2",
                  "f", "fifo", "g", "k", "l", "la", "lb", "m", "modules", "out", "p", "q", "ra", "rl", "rl2", "s", "s.n", "src", "srcx", "t", "x", "y", "z">>
 MCNameChars == [n \in { MCNameOrder[i] : i \in DOMAIN MCNameOrder } |->
    CASE n = ".git" -> DotGit [] n = ".terraform" -> DotTerraform [] n = "modules" -> Modules
      [] n = ".terraformignore" -> <<".","t","e","r","r","a","f","o","r","m","i","g","n","o","r","e">>
-     [] n = "ab" -> <<"a","b">> [] n = "ef" -> <<"e","f">> [] n = "ext" -> <<"e","x","t">> [] n = "ext2" -> <<"e","x","t","2">>
+     [] n = "ab" -> <<"a","b">> [] n = "a+b" -> <<"a","+","b">> [] n = "aab" -> <<"a","a","b">> [] n = "ef" -> <<"e","f">> [] n = "ext" -> <<"e","x","t">> [] n = "ext2" -> <<"e","x","t","2">>
      [] n = "fifo" -> <<"f","i","f","o">> [] n = "la" -> <<"l","a">> [] n = "lb" -> <<"l","b">> [] n = "out" -> <<"o","u","t">>
      [] n = "src" -> <<"s","r","c">> [] n = "srcx" -> <<"s","r","c","x">> [] n = "cw" -> <<"c","w">> [] n = "rl" -> <<"r","l">>
      [] n = "..n" -> <<".",".","n">> [] n = "s.n" -> <<"s",".","n">> [] n = "rl2" -> <<"r","l","2">> [] n = "ra" -> <<"r","a">> [] n = ".." -> <<".",".">>
@@ -47,11 +47,11 @@ LinkSlot(p, tg) == IF tg = <<"-">> THEN <<>> ELSE (p :> LinkNode(tg))
 \* ---- safety universe: link shapes x special files x odd modes ----
 TL == { <<"..">>, <<"..","cw","ext","zz">>, <<"..","ext">>, <<"..","ext","s">>, <<"..","ext","x">>, <<"..","srcx">>, <<"..","srcx","f">>, <<"s">>, <<"f">>, <<"nowhere">>,
         <<"..","fifo">>, <<"..","la">>, <<"","A","src","f">>, <<"","A","ef">>, <<"..","..","A","ext">>, <<"s","..","..","ef">>, <<"..","ef">> }
-TK == { <<"..","ext2">>, <<".">>, <<"..","src","f">>, <<"x">>, <<"..","ef">> }
-TK2 == { <<"..","..","src","f">>, <<"y">> }      \* a link at ext/s/k: one level deeper than where it lands in the archive
+TK == { <<"..","ext2">>, <<".">>, <<"..","src","f">>, <<"x">>, <<"..","ef">>, <<"","A","ext","x">> }
+TK2 == { <<"..","..","src","f">>, <<"y">>, <<"..","..","ext2">> }      \* a link at ext/s/k: one level deeper than where it lands in the archive
 TM == { <<"..","f">>, <<"..","..">>, <<"..","..","src","f">>, <<"..","..","ext">>, <<"..","..","srcx","f">>, <<"..">>, <<"g">> }
 TLq == { <<"..">>, <<"..","cw","ext","zz">>, <<"..","ext">>, <<"..","ext","s">>, <<"..","ext","x">>, <<"..","srcx","f">>, <<"s">>, <<"nowhere">>, <<"..","fifo">>, <<"..","la">>, <<"","A","src","f">>, <<"","A","ef">> }
-TKq == { <<"..","ext2">>, <<".">>, <<"x">> }
+TKq == { <<"..","ext2">>, <<".">>, <<"x">>, <<"","A","ext","x">> }
 TMq == { <<"..","f">>, <<"..","..">>, <<"..","..","src","f">>, <<"..","..","ext">>, <<"..">> }
 
 TreeCore(tf, md, zm) ==
@@ -73,7 +73,7 @@ SafetyTrees(tl, tk, tm) ==
 DotDotNames == (<<"A","src","..n">> :> FileNode(644, 2, 3)) @@ (<<"A","src","s","..n">> :> DirNode(755, 3))
 RTTrees ==
   { LinkSlot(<<"A","src","l">>, l) @@ LinkSlot(<<"A","src","k">>, k) @@ LinkSlot(<<"A","src","s","m">>, m) @@ DotDotNames @@ TreeCore(tf, md, zm) @@ ArenaBase
-    : l \in { <<"s">>, <<"f">>, <<"nowhere">>, <<"s","g">>, <<"k">>, <<"-">> }, k \in { <<"l">>, <<".">>, <<"-">> },
+    : l \in { <<"s">>, <<"f">>, <<".","f">>, <<"s","..","f">>, <<"nowhere">>, <<"s","g">>, <<"k">>, <<"-">> }, k \in { <<"l">>, <<".">>, <<"-">> },
       m \in { <<"..","f">>, <<"g">>, <<"..">>, <<"-">> }, tf \in {2, 1025}, md \in {755, 500}, zm \in {0, 644} }
 
 \* ---- ignore universe: a saturated tree, rule lists from a pattern universe ----
@@ -87,10 +87,11 @@ Sat == [ p \in ( { <<d>> : d \in ID } \cup { <<d1, d2>> : d1 \in ID, d2 \in ID }
        @@ (<<"a",".git">> :> D7) @@ (<<"a",".git","b">> :> FileNode(644, 2, 1))
        @@ (<<".terraform","modules",".git">> :> D7) @@ (<<".terraform","modules",".git","b">> :> FileNode(644, 2, 1))
        @@ (<<"l">> :> LinkNode(<<"..","ext">>))          \* dereferenced external directory: ext/x, ext/s/y
+       @@ (<<"a+b">> :> FileNode(644, 2, 1)) @@ (<<"aab">> :> FileNode(644, 2, 1))    \* a name with a regexp operator, and what the operator would match
 IgnoreTree == [ p \in { Src \o r : r \in DOMAIN Sat } |-> Sat[SubSeq(p, 3, Len(p))] ]
               @@ (Src \o <<".terraformignore">> :> FileNode(644, 2, RuleFileC)) @@ ArenaBase
 
-SegPats == { <<"a">>, <<"b">>, <<"a","*">>, <<"*">>, <<"?">>, <<"x">>, <<"s">>, <<"l">> }
+SegPats == { <<"a">>, <<"b">>, <<"a","*">>, <<"*">>, <<"?">>, <<"a","?">>, <<"a","+","b">>, <<"x">>, <<"s">>, <<"l">> }
 SegLists == { <<s>> : s \in SegPats } \cup { <<s, t>> : s \in SegPats \cup {DSeg}, t \in SegPats \ {<<"x">>, <<"s">>} }
             \cup { <<<<"a">>, DSeg, t>> : t \in {<<"b">>, <<"*">>} } \cup { <<<<"l">>, <<"x">>>>, <<<<"l">>, <<"s">>>>, <<DSeg, <<"s">>, <<"*">>>> }
 RulesU == { SR(n, a, d, sg) : n \in BOOLEAN, a \in BOOLEAN, d \in BOOLEAN, sg \in SegLists }
@@ -110,7 +111,8 @@ pvars == <<pfs, rules, call, res>>
 
 \* ---- spelling universe (C16): one tree, many ways to name it ----
 SpellTree == TreeCore(2, 755, 644) @@ (<<"A","src","l">> :> LinkNode(<<"s","g">>))
-             @@ (<<"A","src","q">> :> LinkNode(<<"..","ext","x">>))          \* out of tree, permitted by the relative allow-list prefix ../ext
+             @@ (<<"A","src","q">> :> LinkNode(<<"..","ext","x">>))
+             @@ (<<"A","src","k">> :> LinkNode(<<"","A","src","f">>))          \* absolute, in-tree          \* out of tree, permitted by the relative allow-list prefix ../ext
              @@ (Src \o <<".terraformignore">> :> FileNode(644, 2, RuleFileC)) @@ ArenaBase
 SpellRules == << SR(FALSE, FALSE, TRUE, <<<<"s">>>>), SR(TRUE, FALSE, FALSE, <<<<"s">>, <<"g">>>>) >>
 Canon == [cwd |-> <<"A">>, sp |-> <<"", "A", "src">>]
@@ -216,7 +218,9 @@ Verdict(f, opts0, rl, st, out, meta, rt, l1) ==
       d20 == IF st = "ok" THEN C20Bad(out, meta) ELSE {}
       S == SubTree(f, Src)
       excl == [r \in DOMAIN S |-> ExclL0(opts, rl, r, S[r].k = "d")]
-      relOnly == \A r \in DOMAIN S : S[r].k = "l" => (~IsAbsT(S[r].tgt) /\ Under(JoinClean(Parent(Src \o r), S[r].tgt), Src))
+      \* "relative symlinks that stay inside the tree": the tree is named by its own root only, so a
+      \* target that climbs above the root and comes back by the root's name does not stay inside
+      relOnly == \A r \in DOMAIN S : S[r].k = "l" => (~IsAbsT(S[r].tgt) /\ Under(JoinClean(<<"#root">> \o Parent(r), S[r].tgt), <<"#root">>))
       d02 == IF st = "ok" /\ relOnly /\ rt.st = "ok" THEN C02Diffs(S, rt.tree, excl)
              ELSE IF relOnly /\ (st # "ok" \/ rt.st # "ok") THEN {<<"round-trip-failed", st \o "/" \o rt.st>>} ELSE {}
       d19 == C19Bad(st)
